@@ -70,6 +70,9 @@ def scenario_strategy(profile):
             ql = draw(st.sampled_from([0, 1, 60, 3600, 604800] if profile == "C15" else [604800, 604800, 3600, 0]))
             controls["queuelifetime"] = "%d\n" % ql
         if profile == "C14":
+            if draw(st.integers(0, 3)) == 0:
+                # catch-all line: every domain that is neither local nor listed becomes virtual; its prefix must come off in the notice, too
+                controls["virtualdomains"] += ":catchall\n"
             if draw(st.booleans()):
                 controls["bouncefrom"] = draw(st.sampled_from(["MAILER-DAEMON", "bounce bot", "b.o"])) + "\n"
             if draw(st.booleans()):
